@@ -309,9 +309,16 @@ func (x *Exec) merge(base *State, states ...*State) *State {
 	m.calls = append([]callRec(nil), live[0].calls...)
 	m.callsOpen = live[0].callsOpen
 	for _, s := range live {
-		if s.callsOpen != m.callsOpen || !sameCalls(s.calls, m.calls) {
+		if s.callsOpen != m.callsOpen {
 			m.callsOpen = true
 			m.calls = nil
+		} else if !sameCalls(s.calls, m.calls) {
+			// keep the common prefix, then an unknown gap
+			n := 0
+			for n < len(s.calls) && n < len(m.calls) && sameCalls(s.calls[n:n+1], m.calls[n:n+1]) {
+				n++
+			}
+			m.calls = append(append([]callRec(nil), m.calls[:n]...), callRec{name: "?"})
 		}
 		if s.epoch != m.epoch {
 			m.epoch = nil
